@@ -15,6 +15,7 @@ import LA.Model.Flags
 import LA.Props.C20
 import LA.Props.C06
 import LA.Proofs.RuleWire
+import LA.Proofs.RulePrint
 
 namespace LA.Rule
 open LA LA.Flags
@@ -233,6 +234,23 @@ theorem C07_wire_roundtrip (env : Env) (he : EnvOk env) (rule : Rule) (b : Bytes
       | true => simp [maskOf, hra] at hfalse
     simp only [hfalse, Bool.false_eq_true, if_false]
     exact syscalls_of_maskOf r hall hi.syscalls n
+
+/-- First clause of C07: for every rule that Build accepts, ToCommandLine succeeds on its wire
+form — every list, action, operator, field and comparison code Build can emit has a name, every
+architecture it accepts can be displayed, and the strings are where the printer looks for them. -/
+theorem C07_print_total (env : Env) (he : EnvOk env) (rule : Rule) (b : Bytes) (h : build env rule = Res.ok b) :
+    ∃ text, toCommandLine b = Res.ok text := by
+  obtain ⟨r, a, r', hr, hfw, hfa, hfl, hac, htr, hst, _, _⟩ := C07_wire_roundtrip env he rule b h
+  have hp := printInv_ruleDataOf he hr
+  have hal := aligned_ruleDataOf hr
+  have hsome := cmdLineOf_isSome r' (by rw [hfl]; exact hp.list) (by rw [hac]; exact hp.action)
+    (by rw [htr]; exact hp.trips) (by rw [htr, hst]; exact hal)
+  cases hc : cmdLineOf r' with
+  | none => rw [hc] at hsome; cases hsome
+  | some text =>
+    refine ⟨text, ?_⟩
+    unfold toCommandLine
+    simp only [hfw, hfa, hc, bind, Bind.bind]
 
 /-- non-vacuity of the wire round trip: a rule with a string field, a numeric field, two syscalls. -/
 example : (match build ⟨false, [], []⟩ (.syscall 3 (ofString "exit") (ofString "always")
